@@ -41,6 +41,7 @@ type World struct {
 	unixCache map[int]value
 	place     map[int]byte
 	placeBack map[byte]value
+	servers   []*mserver
 }
 
 func newWorld(i *interpreter) *World {
